@@ -12,6 +12,7 @@ import (
 	"bytes"
 	"context"
 	"encoding/json"
+	"flag"
 	"fmt"
 	"go/types"
 	"math/big"
@@ -521,6 +522,9 @@ func tryReplay(P *Program, rep *FuncReport, o *Obligation, r *SolveResult, out m
 		fn.Pkg.Pkg.Name(), strings.Join(imps, "\n"), helper, body.String())
 	out["replay_test"] = src
 	out["replay_notes"] = rc.notes
+	if rel, err := filepath.Rel(repo, filepath.Dir(P.Fset.Position(fn.Pos()).Filename)); err == nil {
+		out["replay_pkg_dir"] = rel // (relative to the repository: `govc replay` runs the test there again)
+	}
 	// run it
 	tmp, err := os.MkdirTemp("", "govc-replay")
 	if err != nil {
@@ -641,3 +645,81 @@ func tryReplay(P *Program, rep *FuncReport, o *Obligation, r *SolveResult, out m
 }
 
 var _ = ssa.Function{}
+
+// cmdReplay: `govc replay -prop P -file replay.json [-repo /repo]` runs the test recorded in a replay file again, against
+// the repository's present working tree (injected with go test -overlay, nothing is written into the repository), and
+// compares what the real function returns now with what it returned when the violation was reported. Exit 1 (with the
+// VIOLATION line) when the recorded behaviour is reproduced, 0 when it is not; a record without a replayable input
+// (no-failing-input-found) prints the failed obligation and the solver's output and exits 1.
+func cmdReplay(args []string) int {
+	fs := flag.NewFlagSet("replay", flag.ExitOnError)
+	prop := fs.String("prop", "", "property id")
+	file := fs.String("file", "", "replay file")
+	repo := fs.String("repo", "/repo", "repository")
+	fs.Parse(args)
+	b, err := os.ReadFile(*file)
+	if err != nil {
+		fmt.Fprintln(os.Stderr, err)
+		return 2
+	}
+	var rp map[string]interface{}
+	if err := json.Unmarshal(b, &rp); err != nil {
+		fmt.Fprintln(os.Stderr, err)
+		return 2
+	}
+	str := func(k string) string { s, _ := rp[k].(string); return s }
+	fmt.Printf("obligation: %s\nclause:     %s\nat:         %s\n", str("obligation"), str("detail"), str("pos"))
+	src := str("replay_test")
+	if src == "" {
+		fmt.Printf("no replayable input was found for this obligation (status %s); solver output:\n%s\n", str("status"), str("solver_output"))
+		fmt.Printf("VIOLATION property=%s replay=%s no-failing-input-found\n", *prop, *file)
+		return 1
+	}
+	dir := str("replay_pkg_dir")
+	if dir == "" {
+		dir = filepath.Dir(str("pos")) // (older records: the contract file sits in the package directory)
+	}
+	pkgDir := filepath.Join(*repo, dir)
+	tmp, err := os.MkdirTemp("", "govc-replay")
+	if err != nil {
+		return 2
+	}
+	defer os.RemoveAll(tmp)
+	testFile := filepath.Join(tmp, "zz_govc_replay_test.go")
+	os.WriteFile(testFile, []byte(src), 0o644)
+	ov, _ := json.Marshal(map[string]interface{}{"Replace": map[string]string{filepath.Join(pkgDir, "zz_govc_replay_test.go"): testFile}})
+	ovFile := filepath.Join(tmp, "overlay.json")
+	os.WriteFile(ovFile, ov, 0o644)
+	ctx, cancel := context.WithTimeout(context.Background(), 240*time.Second)
+	defer cancel()
+	cmd := exec.CommandContext(ctx, "go", "test", "-overlay", ovFile, "-vet=off", "-v", "-count=1", "-timeout", "60s", "-run", "^TestGovcReplay$", ".")
+	cmd.Dir = pkgDir
+	cmd.Env = append(os.Environ(), "GOFLAGS=-mod=mod", "GOPROXY=off")
+	var ob bytes.Buffer
+	cmd.Stdout = &ob
+	cmd.Stderr = &ob
+	cmd.Run()
+	leaves := func(txt string) []string {
+		var ls []string
+		for _, line := range strings.Split(txt, "\n") {
+			if strings.HasPrefix(line, "GOVC-LEAF ") || strings.HasPrefix(line, "GOVC-PANIC") {
+				ls = append(ls, strings.TrimSpace(line))
+			}
+		}
+		return ls
+	}
+	now, then := leaves(ob.String()), leaves(str("replay_output"))
+	fmt.Printf("model input: %v\n", rp["model"])
+	fmt.Printf("observed when reported: %v\nobserved now:           %v\n", then, now)
+	if !strings.Contains(ob.String(), "GOVC-DONE") && !strings.Contains(ob.String(), "GOVC-PANIC") {
+		fmt.Printf("the replay test did not run to completion on the present tree:\n%s\n", ob.String())
+		return 2
+	}
+	if strings.Join(now, "|") == strings.Join(then, "|") && len(now) > 0 {
+		fmt.Printf("the recorded behaviour is reproduced on the present tree (%s)\n", str("replay"))
+		fmt.Printf("VIOLATION property=%s replay=%s\n", *prop, *file)
+		return 1
+	}
+	fmt.Println("the recorded behaviour is NOT reproduced on the present tree")
+	return 0
+}
